@@ -204,6 +204,20 @@ func (ex *Exec) fire(before bool, kind, name string, c *ssa.CallCommon, args []V
 	if ex.top == nil || ex.top.contract == nil {
 		return
 	}
+	// anchors name instructions of the function under contract and of its own closures; code of
+	// other functions inlined into it (helpers) does not fire them
+	if ex.fr != nil && ex.fr != ex.top {
+		own := false
+		for f := ex.fr.fn; f != nil; f = f.Parent() {
+			if f == ex.top.fn {
+				own = true
+				break
+			}
+		}
+		if !own {
+			return
+		}
+	}
 	for _, at := range ex.top.contract.Ats {
 		if at.Before != before || !anchorMatches(at, kind, name) {
 			continue
